@@ -74,6 +74,8 @@ class FilesetEngine:
         ]
     }
 
+    timeouts = {"thorough": 3600}
+
     def __init__(self):
         self.base = A.IH5StoreEngine()
 
